@@ -152,6 +152,7 @@ def report(prop, tier, seed, results, extra, trusted, t0, rebaseline, verbose):
     functions = []
     assumptions = set()
     by_backend = {}
+    cvc5_cross = {}
     solver_s = 0.0
     for r in results:
         functions.append({'function': r['target'], 'contract': r['contract'], 'status': r['status'], 'source_sha256_16': r['src_hash'],
@@ -160,6 +161,12 @@ def report(prop, tier, seed, results, extra, trusted, t0, rebaseline, verbose):
                           'abstraction': r.get('abstraction', '')})
         for a in r['assumed']:
             assumptions.add(a)
+        for k_, v_ in (r.get('stats', {}).get('cvc5_cross') or {}).items():
+            if k_ == 'disagreements':
+                for n_ in v_:
+                    problems['selfcheck'].append((n_, 'second back end disagrees: z3 proved the bundle, cvc5 reports a counter-model'))
+            else:
+                cvc5_cross[k_] = cvc5_cross.get(k_, 0) + v_
         solver_s += r['solver'].get('z3_s', 0) + r['solver'].get('cvc5_s', 0) + r['solver'].get('feas_s', 0)
         if r['status'] == 'unverifiable':
             problems['unverifiable'].append((r['target'], r['reason']))
@@ -182,7 +189,6 @@ def report(prop, tier, seed, results, extra, trusted, t0, rebaseline, verbose):
     violations = []
     unreachable = []
     dead_cases = []
-    cvc5_cross = {}
     bounded = []
     skipped = []
     known_lines = []
